@@ -107,9 +107,10 @@ def hard_module_roundtrip(S, nrect, fixed, flip):
     _roundtrip(S, {"Modules": {"H": info}}, "hard")
 
 
-@contract(P, functions=[W + "dump_yaml_module"], params=[dict(center=c, fixed=f) for c in (True, False) for f in (False, True)])
-def terminal_roundtrip(S, center, fixed):
-    _roundtrip(S, {"Modules": {"T": terminal_module(S, "t", center, fixed)}}, "terminal")
+@contract(P, functions=[W + "dump_yaml_module"], params=[dict(center=c, fixed=f, nrect=k) for c in (True, False) for f in (False, True) for k in (0, 1)])
+def terminal_roundtrip(S, center, fixed, nrect):
+    """nrect=1 (added after seed C04-12): a terminal with a rectangle -- a pad with a physical size -- is accepted by the reader"""
+    _roundtrip(S, {"Modules": {"T": terminal_module(S, "t", center, fixed, nrect)}}, "terminal")
 
 
 @contract(P, functions=[W + "dump_yaml_edges", N + "yaml_read_netlist.parse_yaml_edges"],
@@ -176,6 +177,8 @@ def _rand_doc(rng):
             info = {"terminal": True, "center": [x + num(), num()]}
             if rng.random() < 0.3:
                 info["fixed"] = True
+            if rng.random() < 0.3:
+                info["rectangles"] = [[x + 5.0, 5.0, float(num()), float(num())]]
         mods[nm] = info
     names = list(mods)
     nets = []
